@@ -357,6 +357,8 @@ def check(pid, tier, replay=None):
     prop = load_prop(pid)
     wd = os.path.join(WORK, pid)
     os.makedirs(wd, exist_ok=True)
+    if os.path.exists(os.path.join(wd, "replay.json")):
+        os.remove(os.path.join(wd, "replay.json"))
     broken = []        # (kind, name, detail) — proof obligations / ties that no longer check
     notes = []
 
